@@ -172,11 +172,21 @@ impl Local {
     }
     pub fn sample(&mut self, desc: impl FnOnce() -> String) {
         if self.sample_wanted || self.replay {
-            let d = desc();
+            let mut d = desc();
             if self.replay {
                 println!("case: {}", d);
             }
             if self.sample_wanted {
+                if d.len() > 1200 {
+                    // samples are for a reader: a multi-kilobyte case is cut (on a character boundary)
+                    let mut cut = 1200;
+                    while !d.is_char_boundary(cut) {
+                        cut -= 1;
+                    }
+                    let total = d.len();
+                    d.truncate(cut);
+                    d.push_str(&format!("... ({} characters in all)", total));
+                }
                 self.samples.push((self.cur_idx, d));
                 self.sample_wanted = false;
             }
